@@ -11,9 +11,15 @@ def signature(msg, case_lines):
     if w == "post-rejected":
         r = re.search(r"reason=(\S+)", msg)
         return "post-rejected:" + (r.group(1)[:60] if r else "?")
+    if w == "post-readreg":
+        hz = re.search(r"hazard=(\S+)", msg); en = re.search(r"port_en=(\S+)", msg); rs = re.search(r"port_rst=(\S+)", msg); dv = re.search(r"dev=(\S+)", msg)
+        return "what:post-readreg:%s:%s:%s%s" % ("hazard" if hz and hz.group(1) == "true" else "plain", "enable" if en and en.group(1) == "true" else "noenable",
+                                                  "resetvalue" if rs and rs.group(1) == "true" else "noresetvalue", ":dev" + dv.group(1) if dv and dv.group(1) != "0" else "")
     m = re.search(r"memreset=(\S+)", msg)
     d = re.search(r"dev=(\S+)", msg)
-    return "what:%s%s%s" % (w, ":dev" + d.group(1) if d and d.group(1) != "0" else "", ":memreset" if m and m.group(1) == "true" else "")
+    np = re.search(r"pow2=(\S+)", msg)
+    return "what:%s%s%s%s" % (w, ":dev" + d.group(1) if d and d.group(1) != "0" else "", ":memreset" if m and m.group(1) == "true" else "",
+                              ":nonpow2" if m and m.group(1) == "true" and np and np.group(1) == "false" else "")
 
 
 vlib.standard_check({
@@ -25,10 +31,12 @@ vlib.standard_check({
     "harness": "c07",
     # harness args after the seed: ncases ncycles mode [salt]
     #   mode 0 no device / 1 Intel / 2 Xilinx / 3 undefined inputs / 4 out-of-range addresses / 5 reset-initialised / 6 guards, 3 write ports, ROMs /
-    #   7 writes issued under reset (observation only: counted, never a violation)
-    "streams": {"quick": [[2000, 300, 0], [500, 200, 1], [500, 200, 2], [300, 200, 3], [150, 200, 4], [300, 300, 5], [200, 100, 6], [100, 100, 7]],
-                "thorough": [[12000, 400, 0], [4000, 300, 1], [4000, 300, 2], [2000, 300, 3], [1000, 300, 4], [2000, 400, 5], [1000, 200, 6], [500, 3000, 0, 1], [500, 100, 7]]},
-    "search": [[3000, 300, 0], [600, 200, 1], [600, 200, 2], [600, 300, 5]],
+    #   7 writes issued under reset (observation only: counted, never a violation) /
+    #   8 reset-logic family: addResetLogic / initZero / reset ROM x sync, async reset x depth 1, 2, pow2, non-pow2 x longer reset x writes during / right after reset /
+    #   9 read-register family: read latency registers with/without reset value x with/without read enable, enable low after reset
+    "streams": {"quick": [[2000, 300, 0], [500, 200, 1], [500, 200, 2], [300, 200, 3], [150, 200, 4], [300, 300, 5], [200, 100, 6], [100, 100, 7], [500, 60, 8], [700, 80, 9]],
+                "thorough": [[12000, 400, 0], [4000, 300, 1], [4000, 300, 2], [2000, 300, 3], [1000, 300, 4], [2000, 400, 5], [1000, 200, 6], [500, 3000, 0, 1], [500, 100, 7], [5000, 80, 8], [8000, 100, 9]]},
+    "search": [[3000, 300, 0], [600, 200, 1], [600, 200, 2], [600, 300, 5], [2000, 60, 8], [2000, 80, 9]],
     "signature": signature,
     "eval_key": "ops",
     "nontrivial": lambda t: t.get("read_after_write_collisions", 0) + t.get("write_write_collisions", 0) + t.get("hazard_cases", 0),
@@ -36,7 +44,7 @@ vlib.standard_check({
             "order, shared/own address pins, IF-conditional and unconditional writes, write data from a pin or pin XOR an earlier read port (read-modify-write: "
             "makes post-processing retime the write ports and generate hazard bypass logic), depth in {2,4,8,16,32,64} and {3,5,6,7,12,17,24,100}, width in "
             "{1,2,3,4,5,8,12,16,33}, MemType x read latency 0..3, no/zero/random/partial power-on contents, clock with and without synchronous reset, memory "
-            "reset logic (memoryResetType SYNCHRONOUS), no device / Intel Arria 10, Cyclone 10 / Xilinx Kintex Ultrascale, Zynq-7; random access sequences with "
+            "reset logic (memoryResetType SYNCHRONOUS / ASYNCHRONOUS; initZero, addResetLogic network, reset ROM; depth 1, 2, 2^k, non 2^k; reset held 0..3 cycles longer than required; writes during reset or forced right after it), read latency registers with reset values and/or read enables (enable low for 1..4 cycles after reset), no device / Intel Arria 10, Cyclone 10 / Xilinx Kintex Ultrascale, Zynq-7; random access sequences with "
             "two hot addresses and same-address bursts; every cycle: model vs sampled async read data (DIFF), data pins before and after design.postprocess() "
             "vs ArrMem with the declared latency (PROPFAIL); non-trivial = same-cycle read-after-write and write-write collisions + designs with bypass logic",
     "trusted_base": ["Lean 4.33 kernel", "axioms: propext, Classical.choice, Quot.sound only (audited per theorem)",
